@@ -13,7 +13,7 @@ func init() { vrt.Register("zzverif.VC09", VC09) }
 // VC09: the COFF object carries the same code as the flat binary and the
 // right symbols.
 func VC09() {
-	layout := vrt.ChooseStr("layout", []string{"globals-first", "globals-last", "split", "reverse-order", "with-undefined", "subset", "duplicate"})
+	layout := vrt.ChooseStr("layout", []string{"globals-first", "globals-last", "split", "reverse-order", "with-undefined", "subset", "duplicate", "two-reversed", "two-undefined-first", "one"})
 	ln := []int{3, 8, 9, 20}[vrt.Choose("namelen", 4)]
 	fileLen := []int{0, 8, 18}[vrt.Choose("filelen", 3)]
 	a, b, c := nameOf(0, ln), nameOf(1, ln), nameOf(2, ln)
@@ -49,6 +49,15 @@ func VC09() {
 	case "subset":
 		head = "\tGLOBAL " + b + "\n"
 		globals = []string{b}
+	case "two-reversed":
+		head = "\tGLOBAL " + c + ", " + a + "\n"
+		globals = []string{a, c}
+	case "two-undefined-first":
+		head = "\tGLOBAL " + ghost + ", " + c + "\n"
+		globals = []string{c}
+	case "one":
+		head = "\tGLOBAL " + a + "\n"
+		globals = []string{a}
 	}
 	pre := "[BITS 32]\n"
 	if file != "" {
@@ -100,7 +109,7 @@ func VC09() {
 		ord = ord && !seenUndef && s.Value >= last
 		last = s.Value
 	}
-	if layout == "with-undefined" {
+	if layout == "with-undefined" || layout == "two-undefined-first" {
 		ord = ord && seenUndef
 	}
 	vrt.Assert(ord, "c09.order")
